@@ -43,6 +43,7 @@ func newLenMachine(c *Ctx, vmNames ...string) *lenMachine {
 	in := newInterp(c)
 	m.in = in
 	in.NoReturn = func(o types.Object) bool { return o.Name() == "panicf" }
+	in.Inline = c.isNewHelper
 	in.H.Post = m.post
 	in.H.Call = m.call
 	in.H.Assign = m.assign
